@@ -1140,3 +1140,8 @@ CASES += [
             return SddPtr::true_ptr();
         }"""),
 ]
+
+CASES += [
+    dict(name="bb6-relaxed-case-weight-crossed", file=RB, rule="BB", props=["C12"], expect="bb_ub:BB6",
+         old="""                            let lhs = *w_l * low;""", new="""                            let lhs = *w_h * low;"""),
+]
